@@ -30,6 +30,10 @@ def item_xml(it, i, rnd, late_anchor):
         if late_anchor:
             return f'<rect xy="#zz{i}@tl" wh="{q(w)} {q(h)}"/>', f'<point id="zz{i}" xy="{q(x1)} {q(y1)}"/>'
         return rect, ""
+    wrap = {"inif": '<if test="{{{{1 + 1}}}}">{}</if>', "inloop": '<loop count="1">{}</loop>', "infor": '<for var="fv" data="7">{}</for>',
+            "ing": "<g>{}</g>", "ina": '<a href="#top">{}</a>', "ifoff": '<if test="0">{}</if>', "loop0": '<loop count="0">{}</loop>'}
+    if k in wrap:
+        return wrap[k].format(rect), ""
     if k == "circle":
         return f'<circle cx="{q(x1 + h / 2)}" cy="{q(y1 + h / 2)}" r="{q(h / 2)}"/>', ""
     if k == "line":
